@@ -229,6 +229,14 @@ func probeValues(p string) []string {
 		add(s + "x")
 		add(s + "0")
 		add("x" + s + "x")
+		// truncations: the sample without its first / last rune, alone and followed by another character
+		rs := []rune(s)
+		if len(rs) > 1 {
+			add(string(rs[1:]))
+			add(string(rs[:len(rs)-1]))
+			add(string(rs[1:]) + "x")
+			add("x" + string(rs[:len(rs)-1]))
+		}
 	}
 	if len(ss) > 0 {
 		add(ss[0] + "\x01")
